@@ -40,7 +40,7 @@ fn modelled(c: &Case) -> bool {
 /// 1 + MAX_PIPELINED_MESSAGES requests have been delivered before some later round that delivers
 /// more bytes, and that round comes before the handler is woken.
 fn known_class(c: &Case) -> &'static str {
-    let first_waits = c.handlers.first().map_or(false, |h| matches!(h.first(), Some(HAct::Pend)));
+    let first_waits = c.handlers.first().map_or(false, |h| matches!(h.first(), Some(HAct::Wait)));
     if !first_waits {
         return "";
     }
@@ -104,7 +104,11 @@ fn with_drain(c: &Case) -> Case {
 fn reference(c: &Case) -> RunOut {
     let total: usize = c.rounds.iter().map(|r| r.add).sum();
     let mut r = c.clone();
-    r.rounds = vec![Round { add: total, wr: vec![W::A(1 << 30); 8], hw: true, ..Default::default() }];
+    let eof = c.rounds.iter().any(|r| r.eof);
+    r.rounds = vec![
+        Round { add: total, wr: vec![W::A(1 << 30); 8], hw: true, ..Default::default() },
+        Round { add: 0, eof, wr: vec![W::A(1 << 30); 8], hw: true, ..Default::default() },
+    ];
     let acts: usize = c.handlers.iter().map(|h| h.len()).sum::<usize>() + 8;
     for _ in 0..acts {
         r.rounds.push(Round { add: 0, wr: vec![W::A(1 << 30); 8], hw: true, ..Default::default() });
@@ -331,7 +335,7 @@ fn gen_wake(rng: &mut Rng) -> Case {
             let late: Vec<usize> = (0..rng.range(1, 3)).map(|_| rng.range(0, 12) as usize).collect();
             let n = 1 + first + late.iter().sum::<usize>();
             items.push(Item::Req { h: 18, b: None });
-            handlers.push(vec![HAct::Pend, HAct::Respond(RespBody::None)]);
+            handlers.push(vec![HAct::Wait, HAct::Respond(RespBody::None)]);
             for _ in 1..n {
                 items.push(Item::Req { h: 18, b: None });
                 handlers.push(vec![HAct::Respond(RespBody::None)]);
@@ -353,7 +357,7 @@ fn gen_wake(rng: &mut Rng) -> Case {
                 items.push(Item::Req { h: fit_head(rng.range(18, 200) as usize, None), b: None });
                 let mut h = vec![];
                 if rng.chance(1, 3) {
-                    h.push(HAct::Pend);
+                    h.push(if rng.chance(1, 2) { HAct::Pend } else { HAct::Wait });
                 }
                 h.push(HAct::Respond(if rng.chance(1, 3) { RespBody::None } else { body(rng) }));
                 handlers.push(h);
